@@ -755,6 +755,8 @@ def oracle(ctx):
     direct_identity(ctx, tz)
     # ---- local-zone names under a TZ switch: never cached, always the zone of the moment ----
     local_names_tz_switch(ctx, tz)
+    offset_key_fractions(ctx, tz)
+    unresolved_then_resolvable(ctx, tz)
     # ---- equality laws, equal offsets, copies and pickles ----
     for env in TZENVS:
         with S.pinned_tz(env):
@@ -880,6 +882,74 @@ def reduce_correspondence(ctx):
         ctx.count("reduce_rt:" + how.rstrip("012345"))
         if line != g:
             ctx.mismatch("reduce.rt", {"zone": label, "how": how}, line[:300], g[:300])
+
+
+def offset_key_fractions(ctx, tz):
+    """tzoffset keys with a FRACTIONAL second (seeded C18J): next to a live whole-second zone of the same name, a timedelta offset with
+    microseconds, the float spelling of the same offset and tzoffset.instance must all give a zone with exactly that offset — never the
+    whole-second object"""
+    TD = datetime.timedelta
+    for name in ("LMT", None, "X"):
+        for base in (3600, -1800, 0, 86399):
+            whole = tz.tzoffset(name, base)                    # stays alive
+            for us in (500000, 1, 999999, 250000):
+                td = TD(seconds=base, microseconds=us)
+                case = {"op": "offset_fraction", "name": name, "base": base, "us": us}
+                ctx.case(("offset-fraction", name, base, us)); ctx.count("offset_key_fractions")
+                try:
+                    a = tz.tzoffset(name, td); f = tz.tzoffset(name, base + us / 1e6); inst = tz.tzoffset.instance(name, td)
+                    probs = []
+                    if a is whole or a.utcoffset(None) != td:
+                        probs.append("tzoffset(%r, %r) has offset %s (the live whole-second zone is returned: %s)" % (name, td, a.utcoffset(None), a is whole))
+                    if f.utcoffset(None) != td:
+                        probs.append("tzoffset(%r, %r) has offset %s, not %s" % (name, base + us / 1e6, f.utcoffset(None), td))
+                    if not (a == inst) or not (a == f) or (a == whole):
+                        probs.append("equality among the spellings of %s is wrong: ==instance %s, ==float %s, ==whole-second %s" % (td, a == inst, a == f, a == whole))
+                    if tz.tzoffset(name, td) is not a:
+                        probs.append("the same key requested twice while referenced gives two objects")
+                except Exception as ex:      # noqa
+                    probs = ["raised %s: %s" % (type(ex).__name__, ex)]
+                for pr in probs[:1]:
+                    ctx.violation(pr, case, probs)
+            del whole
+
+
+def unresolved_then_resolvable(ctx, tz):
+    """a name that could not be resolved must be resolved as soon as it can be (seeded C18K): gettz(path) while the file is missing, then
+    the file appears; gettz('QQQ') under TZ=UTC, then TZ=QQQ3 + tzset — each time gettz must answer like gettz.nocache does NOW"""
+    import tempfile, shutil, time
+    tz.gettz.cache_clear()
+    tmp = tempfile.mkdtemp(prefix="verif-unres-")
+    try:
+        src = "/usr/share/zoneinfo/Europe/Paris"
+        if os.path.isfile(src):
+            for k in range(3):
+                path = os.path.join(tmp, "Zone%d" % k)
+                case = {"op": "unresolved_then_file", "k": k}
+                first = tz.gettz(path)
+                if k == 1:
+                    tz.gettz(path)                            # asked twice while missing
+                shutil.copyfile(src, path)
+                second, fresh = tz.gettz(path), tz.gettz.nocache(path)
+                ctx.case(("unresolved-file", k)); ctx.count("unresolved_then_file")
+                if first is not None:
+                    ctx.count("unresolved_file_resolved_while_missing")
+                elif second is None or fresh is None or not (second == fresh):
+                    ctx.violation("gettz(path) answered None while the file was missing and still answers %r after a valid TZif was written there "
+                                  "(gettz.nocache: %r)" % (second, fresh), case, None)
+        if hasattr(time, "tzset"):
+            for name, env in (("QQQ", "QQQ3"), ("WXYZ", "WXYZ-5"), ("VVV", "AAA2VVV,M3.2.0,M11.1.0")):
+                case = {"op": "unresolved_then_local", "name": name, "tz": env}
+                with S.pinned_tz("UTC"):
+                    first = tz.gettz(name)
+                with S.pinned_tz(env):
+                    second, fresh = tz.gettz(name), tz.gettz.nocache(name)
+                    ctx.case(("unresolved-local", name)); ctx.count("unresolved_then_local")
+                    if first is None and fresh is not None and (second is None or not (second == fresh)):
+                        ctx.violation("gettz(%r) answered None under TZ=UTC and answers %r under TZ=%s (gettz.nocache: %r)" % (name, second, env, fresh), case, None)
+    finally:
+        shutil.rmtree(tmp, ignore_errors=True)
+        tz.gettz.cache_clear()
 
 
 def direct_identity(ctx, tz):
@@ -1132,6 +1202,12 @@ def replay(ctx, payload):
             tree.close()
         print("gettz.nocache(%r): impl %s, documented order %s" % (c["name"], impl, spec))
         return impl == spec
+    if c.get("op") in ("offset_fraction", "unresolved_then_file", "unresolved_then_local"):
+        sub = type(ctx)(ctx.prop, ctx.tier, ctx.seed)
+        (offset_key_fractions if c["op"] == "offset_fraction" else unresolved_then_resolvable)(sub, tz)
+        for v in sub.violations[:5]:
+            print(v["what"])
+        return not sub.violations
     if c.get("op") == "local_name_switch":
         sub = type(ctx)(ctx.prop, ctx.tier, ctx.seed)
         local_names_tz_switch(sub, tz, only=c)
